@@ -146,7 +146,11 @@ def special(kind, value):
         return text == f"{value}s", f"duration of {value} s encodes as {text!r}"
     v = ct.BytesType(bytes(value))
     text = json.loads(json.dumps([v], cls=CELJSONEncoder))[0]
-    return base64.b64decode(text) == bytes(value) and text == base64.b64encode(bytes(value)).decode(), f"bytes {value[:8]} encode as {text[:40]!r}"
+    try:
+        back = base64.b64decode(text, validate=True)
+    except Exception as ex:  # noqa: BLE001
+        return False, f"bytes {value[:8]} encode as {text[:40]!r}, which is not valid (standard alphabet) base64: {ex}"
+    return back == bytes(value) and text == base64.b64encode(bytes(value)).decode(), f"bytes {value[:8]} encode as {text[:40]!r}"
 
 
 def time_text(what, vals):
